@@ -27,6 +27,7 @@ RULE += '; the function may raise an Exception whose instance is falsy'
 RULE += "; built-in exception classes (InvalidStateError, RuntimeError, LookupError, AssertionError ...) as the function's outcome"
 RULE += '; the decorated function may have been used under another event loop before; the callable may be a functools.partial or an object with an async __call__'
 RULE += '; returned exception instances; the calling task may have absorbed a cancel earlier'
+RULE += "; an earlier complete call from the same task; a busy loop turn after the function's last step (virtual CPU time)"
 LEVEL_TEXT = (
     "Single-fault enumeration: the caller cancellation is injected at every instant of a complete integer time grid "
     "around the function's end and the deadline, for every outcome kind; the oracle is a case analysis on the earliest "
@@ -148,6 +149,11 @@ def _run_timed(case, inject_iter):
                         await asyncio.sleep(e)
                         return val
                     raise
+                if case.get("busy"):
+                    # the event loop is BUSY right after the function's last step (some other ready callback takes `busy`
+                    # seconds of the loop's clock): the function has finished before the deadline, only the news arrives late
+                    cur = asyncio.get_running_loop()
+                    cur.call_soon(lambda: setattr(cur, "_vtime", cur._vtime + case["busy"]))
                 if kind in ("value", "ignore", "value_exc", "value_cancelled"):
                     return val
                 if kind == "exc":
@@ -204,6 +210,15 @@ def _run_timed(case, inject_iter):
                     await asyncio.sleep(0)
                 except asyncio.CancelledError:
                     pass
+            if case.get("earlier"):
+                # an EARLIER, complete call of the same wrapper from this very task, some time ago: its deadline belongs to
+                # it alone and passes while the judged call is running
+                try:
+                    await wrapped("warm", k=8)
+                except TimeoutError:
+                    pass  # (a zero timeout, rightly)
+                await asyncio.sleep(case["earlier"])
+            if case.get("swallowed_cancel") or case.get("earlier"):
                 holder["danced"].set_result(None)
                 await holder["go"]  # the judged call (and the generated cancellation of it) starts from here
             try:
@@ -230,13 +245,14 @@ def _run_timed(case, inject_iter):
 
             bg_task = loop.create_task(bg_caller())
             await asyncio.sleep(bg["lead"])
-        if case.get("swallowed_cancel"):
+        pre = bool(case.get("swallowed_cancel") or case.get("earlier"))
+        if pre:
             holder["danced"], holder["go"] = loop.create_future(), loop.create_future()
         task = loop.create_task(caller())
-        if case.get("swallowed_cancel"):
+        if pre:
             await holder["danced"]
             holder["go"].set_result(None)
-        origin = t0 + (bg["lead"] if bg is not None else 0)  # absolute start time of the judged call
+        origin = loop.time() if pre else t0 + (bg["lead"] if bg is not None else 0)  # absolute start time of the judged call
         task.add_done_callback(lambda t: obs.setdefault("t", loop.time() - origin))
         holder["task"] = task
         holder["origin"] = origin
@@ -315,6 +331,8 @@ def _run_timed(case, inject_iter):
     else:
         rk, rv = obs["result"]
         t = obs["t"]
+        if case.get("busy") and tied == ["d"]:
+            t -= case["busy"]  # delivered one busy loop turn after the function finished (at d)
         ok = False
         expected = []
         for br in tied:
@@ -428,6 +446,11 @@ def enumerate_cases(tier):
         yield {"d": d, "steps": 1, "outcome": "exc_falsy", "e": 2, "tau": tau, "c": c}
     for d, tau, c, kind, extra in itertools.product([0, 1, 3], [2], [None, 1], KINDS, [{"second_loop": True}, {"callable": "partial"}, {"callable": "object"}]):
         yield {"d": d, "steps": 1, "outcome": kind, "e": 2, "tau": tau, "c": c, **extra}
+    # the function finishes strictly before the deadline, then the loop is busy across the deadline
+    for d, tau, busy, kind in itertools.product([0.5, 1], [1.25, 1.5], [0.5, 1.0, 2.0], ["value", "exc", "base", "value_exc", "exc_timeout", "selfcancel_raise"]):
+        yield {"d": d, "steps": 1, "outcome": kind, "e": 2, "tau": tau, "c": None, "busy": busy}
+    for d, tau, c, kind, earlier in itertools.product([1, 3], [2], [None, 1], KINDS, [0.5, 1.5]):
+        yield {"d": d, "steps": 1, "outcome": kind, "e": 2, "tau": tau, "c": c, "earlier": earlier}
     for d, tau, c, kind in itertools.product([0, 1, 3], [2], [None, 1], [*KINDS, "value_exc", "value_cancelled"]):
         yield {"d": d, "steps": 1, "outcome": kind, "e": 2, "tau": tau, "c": c, "swallowed_cancel": True}
     for d, tau, c, name in itertools.product([0, 1, 3], [2], [None, 1], list(_BUILTIN_EXC)):
@@ -444,7 +467,7 @@ def enumerate_cases(tier):
 def strategy(tier):
     eighth = st.integers(0, 48).map(lambda n: n / 8)
     return st.builds(
-        lambda d, steps, kind, e, tau, c, t0, bg, sc, sl, cb: {"d": d, "steps": steps, "outcome": kind, "e": e, "tau": tau, "c": c, "t0": t0, "bg": bg, "in_scope": sc, "second_loop": sl, "callable": cb, "swallowed_cancel": cb is None and sl and sc},
+        lambda d, steps, kind, e, tau, c, t0, bg, sc, sl, cb: {"d": d, "steps": steps, "outcome": kind, "e": e, "tau": tau, "c": c, "t0": t0, "bg": bg, "in_scope": sc, "second_loop": sl, "callable": cb, "swallowed_cancel": cb is None and sl and sc, "earlier": (0.25 if steps == 2 else 1.0) if (bg is None and not sl and steps != 1) else None},
         eighth,
         st.sampled_from([1, 2, 4]),
         st.sampled_from(KINDS + EXTRA_KINDS),
